@@ -72,7 +72,11 @@ func (e *Engine) run(st *State) {
 				ev := &Event{Kind: "return", Instr: x, Fn: fr.fn, Pos: e.Pos(x), Results: vals}
 				st.note("return", e.Pos(x))
 				e.deliver(st, ev)
-				e.Returns = append(e.Returns, ReturnRec{Vals: vals, State: st, Pos: e.Pos(x)})
+				if e.Cfg.DropReturnStates {
+					e.Returns = append(e.Returns, ReturnRec{Pos: e.Pos(x)})
+				} else {
+					e.Returns = append(e.Returns, ReturnRec{Vals: vals, State: st, Pos: e.Pos(x)})
+				}
 				return
 			}
 			if !e.popFrame(st, vals, x) {
@@ -416,6 +420,10 @@ func (e *Engine) simple(st *State, fr *Frame, ins ssa.Instruction) bool {
 		site := e.site(fr, x)
 		st.shiftSite(site)
 		fr.env[x] = Make(site, 0, x.Type(), e.value(st, fr, x.Size))
+		ev := &Event{Kind: "make", Class: "chan", Instr: x, Fn: fr.fn, Depth: fr.depth, Pos: e.Pos(x), Site: site, Val: e.value(st, fr, x.Size), Results: []*Term{fr.env[x]}}
+		if !e.deliver(st, ev) {
+			return false
+		}
 	case *ssa.FieldAddr:
 		fr.env[x] = FieldAddr(e.value(st, fr, x.X), x.Field)
 	case *ssa.Field:
@@ -570,6 +578,10 @@ func (e *Engine) binop(op token.Token, a, b *Term, opType types.Type) *Term {
 					return Aff2(p, n, ca-cb)
 				}
 			}
+		}
+	case token.MUL:
+		if isIntType(opType) && a.IsConstInt() && b.IsConstInt() {
+			return ConstInt(a.I * b.I)
 		}
 	case token.EQL:
 		return Bin("==", a, b)
